@@ -709,6 +709,11 @@ func (c *evalCtx) call(x *ECall) val {
 			return val{t: "true", typ: tBool}
 		}
 		return val{t: "(and " + strings.Join(parts, " ") + ")", typ: tBool}
+	case "same": // same(a, b): identical values (for slices: same array, length and capacity), stronger than ==
+		argN(2)
+		a, b := c.eval(x.Args[0]), c.eval(x.Args[1])
+		a, b = c.unify(a, b)
+		return val{t: fmt.Sprintf("(= %s %s)", a.t, b.t), typ: tBool}
 	case "isnilslice":
 		argN(1)
 		v := c.eval(x.Args[0])
@@ -778,17 +783,30 @@ func (c *evalCtx) call(x *ECall) val {
 		saved := map[string]val{}
 		savedB := map[string]bool{}
 		var args []val
-		for i, a := range x.Args {
-			t := c.resolveType(p.Params[i].Type)
-			args = append(args, c.evalAs(a, t))
+		// parameter types and identifiers of the body resolve in the package that declares the predicate
+		savedPkg := c.pkg
+		predPkg := savedPkg
+		if pp := vc.eng.byName[p.Pkg]; pp != nil {
+			predPkg = pp.Pkg
 		}
+		var ptypes []types.Type
+		c.pkg = predPkg
+		for i := range x.Args {
+			ptypes = append(ptypes, c.resolveType(p.Params[i].Type))
+		}
+		c.pkg = savedPkg
+		for i, a := range x.Args {
+			args = append(args, c.evalAs(a, ptypes[i]))
+		}
+		c.pkg = predPkg
+		defer func() { c.pkg = savedPkg }()
 		for i, pp := range p.Params {
 			if v, ok := c.vars[pp.Name]; ok {
 				saved[pp.Name] = v
 			}
 			savedB[pp.Name] = c.bound[pp.Name]
 			a := args[i]
-			if t := c.resolveType(pp.Type); t != tMathInt {
+			if t := ptypes[i]; t != tMathInt {
 				a.typ = t
 			}
 			c.vars[pp.Name] = a
